@@ -78,6 +78,14 @@ def family(quick):
                                  {"a": "write", "g": "T", "obj": "U1", "id": "A", "pts": [[2, 4]], "ctxMs": CTX, "wait": True},
                                  {"a": "flush", "g": "T", "obj": "U1", "ctxMs": CTX, "wait": True},
                                  {"a": "sendMeta", "g": "T", "tag": 4, "ctxMs": CTX, "wait": True},
+                                 {"a": "call", "g": "T", "tag": 5, "ctxMs": CTX, "wait": True},
+                                 {"a": "replyCall", "g": "T", "tag": 6, "reqID": "x", "ctxMs": CTX, "wait": True},
+                                 {"a": "callWait", "g": "T", "tag": 7, "ctxMs": CTX, "wait": True},
+                                 {"a": "recvCall", "g": "T", "ctxMs": CTX, "wait": True}, {"a": "recvReply", "g": "T", "ctxMs": CTX, "wait": True},
+                                 {"a": "openUp", "g": "T", "obj": "U7", "qos": "reliable", "ctxMs": CTX, "wait": True},
+                                 {"a": "openDown", "g": "T", "obj": "D7", "qos": "reliable", "srcs": ["n1"], "ctxMs": CTX, "wait": True},
+                                 {"a": "state", "obj": "U1"},
+                                 {"a": "closeUp", "g": "T", "obj": "U1", "ctxMs": CTX, "wait": True},
                                  {"a": "release", "gate": "g1"}, {"a": "await", "ev": "Reconnected", "ms": 3000}, {"a": "sleep", "ms": 200}] + probes()})
     # (3) broker completely silent (not even pongs): calls without a deadline are bounded by keep-alive detection + redial + re-send
     for name, call in (("sendMeta", {"a": "sendMeta", "g": "T", "tag": 5}), ("openUp", {"a": "openUp", "g": "T", "obj": "U1", "qos": "reliable"}),
